@@ -11,9 +11,12 @@ Two SymStr are the same string iff they have the same length and the same charac
 state that element-wise (`forall`), the encoding never compares two SymStr objects directly.
 
 min(items, key=f) over a python list of candidates (concrete count, symbolic members):
-the result is `select(items, w)` for a fresh index 0 <= w < len(items) (if-then-else chains over
-scalars, tensors and tuples of those), and key(result) <= key(item) for every item.  Python's
-tie-break (first minimal item) is deliberately NOT modelled: any minimal item is allowed.
+the result is `select(items, w)` for a fresh index 0 <= w < len(items) (scalars: if-then-else
+chains; tensors: a fresh uninterpreted tensor R with the hypotheses `w == c -> forall idx.
+R[idx] == items[c][idx]`, one per candidate, triggered by reads of R -- the same for the inverse
+witnesses of declared permutations; tuples: component-wise), and key(result) <= key(item) for every
+item.  Python's tie-break (first minimal item) is deliberately NOT modelled: any minimal item is
+allowed.
 """
 from __future__ import annotations
 
